@@ -98,6 +98,8 @@ pub struct Oracle {
     /// last notified term per (node, incarnation) for C31
     pub note_terms: BTreeMap<(u32, u64), u64>,
     pub learner_cfg_nodes: BTreeSet<u32>,
+    /// peer -> virtual ms at which the latest AppendEntries with prev (0,0) and entries was sent to it
+    pub prev_zero_sent: BTreeMap<u32, u64>,
 }
 
 pub type OracleRef = Arc<Mutex<Oracle>>;
@@ -270,6 +272,10 @@ impl Oracle {
                 "noncontiguous_request",
                 json!({"leader": leader, "peer": peer, "prev": req.prev_log_index, "indexes": idx, "cap": cap}),
             );
+        }
+        if req.prev_log_index == 0 && req.prev_log_term == 0 && !req.entries.is_empty() {
+            self.prev_zero_sent.insert(peer, vnow());
+            self.probe("ae_prev_zero_with_entries");
         }
         if req.entries.len() as u64 > cap {
             self.probe("request_over_cap");
